@@ -6,6 +6,7 @@ package buffnetlink
 
 // A-GENLFAMILY (assumed): the gtp5g generic-netlink family, when found, has at least one multicast group.
 //@ func OpenServer(wg *sync.WaitGroup, client *nl.Client, mux *nl.Mux) (s *Server, err error)
+//@   locals s:*buffnetlink.Server | f:*genl.Family | err:error
 //@   requires wg != nil
 //@   ensures [ok] err == nil ==> s != nil
 //@   modifies nothing
@@ -19,6 +20,7 @@ package buffnetlink
 // every usage report is converted field by field and its reporting-trigger cause is mapped by
 // UsageReportTrigger.SetReportingTrigger (C19); reports are grouped by the SEID they carry.
 //@ func (s *Server) ServeMsg(msg *nl.Msg) (ok bool)
+//@   locals b:[]byte | usars:map[uint64][]report.USAReport | hdr:nl.AttrHdr | n:int | err:error | seid:uint64 | pdrid:uint16 | action:uint16 | pkt:[]byte | err:error | dldr:report.DLDReport | rs:[]gtp5gnl.USAReport | err:error | r:gtp5gnl.USAReport | usar:report.USAReport | seid:uint64 | rs:[]report.USAReport | usars:[]report.Report | r:report.USAReport
 //@   requires s != nil && msg != nil && s.handler != nil && len(msg.Body) >= 4
 //@   modifies *
 //@   serves C10 C13 C07
@@ -42,6 +44,7 @@ package buffnetlink
 //@     assert [usa]  arg0.SEID == seid
 
 //@ func decodbuffer(b []byte) (seid uint64, pdrid uint16, action uint16, pkt []byte, err error)
+//@   locals pkt:[]byte | seid:uint64 | pdrid:uint16 | action:uint16 | hdr:nl.AttrHdr | n:int | err:error
 //@   modifies nothing
 //@   serves C13 C07
 //@   loop for(len(b) > 0):
